@@ -8,6 +8,7 @@ import (
 
 	"github.com/nuetzliches/hookaido/internal/pullapi"
 	"github.com/nuetzliches/hookaido/internal/queue"
+	"github.com/nuetzliches/hookaido/internal/verifhook"
 	workerapipb "github.com/nuetzliches/hookaido/internal/workerapi/proto"
 	"google.golang.org/grpc/codes"
 	"google.golang.org/grpc/status"
@@ -200,6 +201,7 @@ func (s *Server) resolveAndAuthorize(ctx context.Context, endpoint string) (stri
 	if s.Authorize != nil && !s.Authorize(ctx, endpoint) {
 		return "", status.Error(codes.Unauthenticated, "request is not authorized")
 	}
+	verifhook.Point("worker.after-authorize")
 	route, ok := s.resolveRoute(endpoint)
 	if !ok {
 		return "", status.Error(codes.NotFound, "pull endpoint is not configured")
